@@ -532,6 +532,7 @@ pub fn run(ctx: &Ctx) -> Report {
     rep.set("tokens.text_len_all_chains", l_all as u64);
     rep.set("tokens.text_len_chains_le1", l_plain as u64);
 
+    let mut reuse_incomplete = false;
     // ---- family R: reuse protocol. every analyzer with <= 1 filter (and every 2-chain containing the compound
     // splitter on the word tokenizers) x every pair of texts of <= 2 symbols over a reduced alphabet x the first
     // stream dropped after 0, 1, 2 or all of its tokens
@@ -585,7 +586,7 @@ pub fn run(ctx: &Ctx) -> Report {
             }
         });
         if rdone != ritems.len() {
-            st.errors.push("reuse family incomplete (time budget)".into());
+            reuse_incomplete = true;
         }
         st.merge(rst);
     }
@@ -679,7 +680,7 @@ pub fn run(ctx: &Ctx) -> Report {
     });
     st.merge(st2);
     let complete = tokens_complete && done2 == sitems.len();
-    rep.set("exhaustive", complete);
+    rep.set("exhaustive", complete && !reuse_incomplete);
     rep.set("snippet.text_len", if thorough { 4u64 } else { 3 });
     rep.set("snippet.configs", sitems.len() as u64);
     rep.set(
